@@ -393,7 +393,11 @@ def run_one(pid, cfg, tier, seed, base, repo, mir, binary, listed, t_setup, kani
             continue
         if kind == 'witness':
             inputs, obs, checks, outcome, msg = x
-            nat_panic = (t['end'] or '').startswith('PANIC')
+            nat_end = t['end'] or ''
+            nat_panic = nat_end.startswith('PANIC') and 'replay exhausted' not in nat_end and 'replay desync' not in nat_end
+            if nat_end.startswith('PANIC') and not nat_panic:
+                divergences.append((h, f'native replay desynchronised: {nat_end}', x[0]))
+                continue
             okk = (outcome == 'panic') == nat_panic
             okk = okk and [(a, b) for a, b in t['obs']][:len(obs)] == [(a, str(b)) for a, b in obs][:len(t['obs'])]
             if outcome == 'ok':
@@ -409,9 +413,12 @@ def run_one(pid, cfg, tier, seed, base, repo, mir, binary, listed, t_setup, kani
             else:
                 divergences.append((h, f'counterexample for {x["check"]} does not reproduce natively: {t}', x['inputs']))
         else:
-            if (t['end'] or '').startswith('PANIC'):
+            end = t['end'] or ''
+            if end.startswith('PANIC') and 'replay exhausted' not in end and 'replay desync' not in end:
                 confirmed.append((h, 'panic', x['inputs'], t['end']))
             else:
+                # the native run did not panic where the symbolic run did (running out of replay inputs means it
+                # went on past that point): a model is wrong, not the code under test
                 divergences.append((h, f'panic path does not reproduce natively: {x["msg"]} native={t}', x['inputs']))
     # ---- verdict ---------------------------------------------------------------------
     out_lines = []
@@ -529,7 +536,9 @@ def replay_file(path):
         tr = native_run(binary, base, [('r0', body['harness'], [tuple(x) for x in body['inputs']])])
         t = tr['r0']
         print(json.dumps(t, indent=1))
-        bad = [c for c, v in t['checks'] if not v] or (t['end'] or '').startswith('PANIC')
+        end = t['end'] or ''
+        bad = [c for c, v in t['checks'] if not v] or (end.startswith('PANIC') and 'replay exhausted' not in end
+                                                        and 'replay desync' not in end)
         if bad:
             print(f'VIOLATION property={body["property"]} replay={path}')
             return 1
